@@ -6,7 +6,7 @@
 # nor does it submit to any jurisdiction.
 
 from pymbolic.mapper.stringifier import (
-    PREC_UNARY, PREC_LOGICAL_AND, PREC_LOGICAL_OR, PREC_COMPARISON, PREC_NONE
+    PREC_UNARY, PREC_POWER, PREC_LOGICAL_AND, PREC_LOGICAL_OR, PREC_COMPARISON, PREC_NONE
 )
 from pymbolic.primitives import Product, Quotient, FloorDiv, Remainder
 
@@ -50,7 +50,8 @@ class FCodeMapper(LokiStringifyMapper):
 
     def map_logical_not(self, expr, enclosing_prec, *args, **kwargs):
         return self.parenthesize_if_needed(
-            ".not." + self.rec(expr.child, PREC_UNARY, *args, **kwargs),
+            # PREC_POWER (one above PREC_UNARY) brackets a nested negation: ``.not..not.a`` is not valid Fortran
+            ".not." + self.rec(expr.child, PREC_POWER, *args, **kwargs),
             enclosing_prec, PREC_UNARY)
 
     def map_logical_and(self, expr, enclosing_prec, *args, **kwargs):
